@@ -988,15 +988,18 @@ def run_floor_step(tier, log, seed):
     fn = cands[0]
     floor_re = r"copy \(_2\.1: u64\)"   # InitialAndFloorGas.floor_gas of the parameter
     site = None
+    quantity = "used"
     for b in fn.blocks.values():
-        if b.term and re.match(r"^_\d+ = Gas::spent_sub_refunded\(", b.term):
-            d = re.match(r"^(_\d+) = ", b.term).group(1)
+        mm = re.match(r"^(_\d+) = Gas::(spent_sub_refunded|spent)\(", b.term or "")
+        if mm:
             nxt = [s for l, s in mir.successors(b.term) if l == "return"]
-            if nxt:
-                site = (d, nxt[0])
+            # the call that feeds the floor comparison is followed by a comparison with the floor field
+            if nxt and any(re.search(r"= (Lt|Le|Gt|Ge)\(", s_) for s_ in fn.blocks[nxt[0]].stmts) and any(re.search(floor_re, s_) for s_ in fn.blocks[nxt[0]].stmts):
+                site = (mm.group(1), nxt[0])
+                quantity = "used" if mm.group(2) == "spent_sub_refunded" else "spent"
     if not site:
         duo.close()
-        res.update(status="inconclusive", reason="no call to Gas::spent_sub_refunded in transact_preverified_inner")
+        res.update(status="inconclusive", reason="no Gas::spent_sub_refunded / Gas::spent call feeding a comparison with floor_gas in transact_preverified_inner")
         return res
     d, bbc = site
     blk = fn.blocks[bbc]
@@ -1013,7 +1016,7 @@ def run_floor_step(tier, log, seed):
 
     def sym(local):
         if local == d:
-            return "used"
+            return quantity
         ds = [s for s in blk.stmts if s.startswith(local + " = ")]
         if len(ds) == 1 and re.search(floor_re, ds[0]):
             return "floor"
@@ -1041,8 +1044,9 @@ def run_floor_step(tier, log, seed):
             break
         cur = nx[0]
     # model: used' = if cond { set_spent(X) ; refund := R ; min(X, limit) - R } else { used }
-    decls = ["(declare-const used Int)", "(declare-const floor Int)", "(declare-const limit Int)", "(declare-const unk Int)"]
-    pre = ["(<= 0 used)", "(<= used limit)", "(<= 0 floor)", "(<= floor limit)", "(<= limit 18446744073709551615)"]
+    decls = ["(declare-const used Int)", "(declare-const spent Int)", "(declare-const floor Int)", "(declare-const limit Int)", "(declare-const unk Int)"]
+    # used = spent - refund with 0 <= refund <= spent/2
+    pre = ["(<= 0 used)", "(<= used spent)", "(<= spent (* 2 used))", "(<= spent limit)", "(<= 0 floor)", "(<= floor limit)", "(<= limit 18446744073709551615)"]
     if set_spent is None or set_refund is None:
         then_used = "unk"
     else:
@@ -1051,7 +1055,7 @@ def run_floor_step(tier, log, seed):
         then_used = f"(- (ite (<= {sp} limit) {sp} limit) {rf})"
     after = f"(ite {cond} {then_used} used)"
     want = "(ite (< used floor) floor used)"
-    v, model, detail = duo.check(decls, pre + [f"(not (= {after} {want}))"], want_model_of=("used", "floor", "limit"))
+    v, model, detail = duo.check(decls, pre + [f"(not (= {after} {want}))"], want_model_of=("used", "spent", "floor", "limit"))
     res.update(queries=duo.queries, solver_s=duo.time,
                bounds=f"floor step read from MIR: if {cmp_[1]}({a}, {b_}) then set_spent({set_spent}); set_refund({set_refund}) -> {v}",
                detail="all 0 <= used <= limit, 0 <= floor <= limit <= u64::MAX; Gas::set_spent / set_refund / spent_sub_refunded semantics are those decided in C13")
@@ -1059,8 +1063,16 @@ def run_floor_step(tier, log, seed):
     if v == "unsat":
         res.update(status="pass")
     elif v == "sat":
-        # no native scenario drives a whole transaction here: a structural disagreement is reported as inconclusive, never as a violation
-        res.update(status="inconclusive", reason=f"floor step of transact_preverified_inner no longer matches max(spent - refund, floor): {res['bounds']} model {model}")
+        # replay: a Prague transaction with much calldata and a storage-clearing refund (spent >= floor > spent - refund)
+        st, out = native.call("debug", "floor_gas_used", log=log)
+        m = re.search(r"gas_used=(\d+) floor=(\d+)", out) if st == "ok" else None
+        desc = f"EIP-7623 floor step of transact_preverified_inner is not max(spent - refund, floor): {res['bounds']}; model {model}"
+        if m and int(m.group(1)) < int(m.group(2)):
+            res.update(status="fail", failures=[dict(id="floor-step", reproduced=True, description=desc + f" | native: {out}")], reason=desc[:300])
+        elif m:
+            res.update(status="fail", failures=[dict(id="floor-step", reproduced=False, description=desc + f" | native scenario respects the floor: {out}")], reason=desc[:300])
+        else:
+            res.update(status="inconclusive", reason=f"native scenario failed: {st} {out}")
     else:
         res.update(status="inconclusive", reason=str(detail))
     return res
@@ -1285,6 +1297,33 @@ def run_clear_on_exit(tier, log, seed):
             failures.append(dict(id=f"{fname}-no-clear", reproduced=int(m.group(1)) > 0, description=desc + f" | native: {out}"))
         else:
             inconcl.append(f"{fname}: native scenario failed: {st} {out}")
+    # ---- what the reset does: JournaledState::clear must replace the WHOLE state by a freshly built one (every path)
+    cands = [f for n, fl in funcs.items() for f in fl if re.search(r"^journaled_state::<impl at [^>]*>::clear$", n)]
+    if len(cands) != 1:
+        inconcl.append(f"JournaledState::clear: {len(cands)} MIR bodies")
+    else:
+        fn = cands[0]
+        tag = {}
+        for b in fn.blocks.values():
+            for s_ in b.stmts:
+                m = re.match(r"^\(\*_1\) = move (_\d+)$", s_)
+                if m:
+                    ds = defs_of(fn, m.group(1))
+                    if len(ds) == 1 and re.match(r"^JournaledState::new\(", ds[0]) and "HashSet<Address> as Default>::default" in fn.text:
+                        tag[b.name] = CLEAN
+        v, info = path_search(fn, duo, {}, {}, tag, lambda c_, k, b_: f"(not (= {k} {CLEAN}))")
+        samples.append(f"JournaledState::clear: every path overwrites *self with JournaledState::new(spec, empty warm set): {v}")
+        log(f"[e3] {samples[-1]}")
+        if v == "sat":
+            st, out = native.call("debug", "journal_clear_leak", log=log)
+            desc = "JournaledState::clear does not rebuild the whole state (a path leaves fields of the previous transaction in place)"
+            m = re.search(r"leaked=(\d+)", out) if st == "ok" else None
+            if m:
+                failures.append(dict(id="journal-clear-partial", reproduced=int(m.group(1)) > 0, description=desc + f" | native: {out}"))
+            else:
+                inconcl.append(f"JournaledState::clear: native scenario failed: {st} {out}")
+        elif v != "unsat":
+            inconcl.append(f"JournaledState::clear: {info}")
     q, tm = duo.queries, duo.time
     duo.close()
     res = dict(queries=q, solver_s=tm, engine="mir-cfg -> smtlib path search (z3 4.8.12 + cvc5 1.0)", bounds="; ".join(samples),
@@ -1360,6 +1399,40 @@ def run_inspector_balance(tier, log, seed):
         else:
             # e.g. `pop().unwrap()` on an empty stack panics inside the native scenario: that is the imbalance showing
             failures.append(dict(id=f"inspector-{field}", reproduced=(st == "panic"), description=desc + f" | native: {st} {out}"))
+    # ---- the stack that last_frame_return / insert_*_outcome pop is selected by the VARIANT of the returned FrameResult: every result or
+    # frame built by make_<kind>_frame (directly, in its closures, or in a helper it calls) must be of that kind
+    for fname, kind in (("make_call_frame", "call"), ("make_create_frame", "create"), ("make_eofcreate_frame", "eofcreate")):
+        roots = [f for n, fl in funcs.items() for f in fl if n.endswith("::" + fname) or ("::" + fname + "::{closure#") in n]
+        if not roots:
+            inconcl.append(f"{fname}: MIR not found")
+            continue
+        seen_ctor, helpers = set(), set()
+        for f in roots:
+            for b in f.blocks.values():
+                c = callee_of(b.term or "")
+                if not c:
+                    continue
+                m = re.search(r"FrameOrResult::new_(\w+?)_(result|frame)$", c[1])
+                if m:
+                    seen_ctor.add(m.group(1))
+                elif re.search(r"EvmContext::<.*>::\w+$|evm_context::\w+$", c[3].split("(")[0]) and "make_" not in c[1]:
+                    helpers.add(c[1].split("::")[-1])
+        for hname in helpers:
+            for n, fl in funcs.items():
+                if n.endswith("::" + hname):
+                    for m in re.finditer(r"FrameOrResult::new_(\w+?)_(result|frame)\(", fl[0].text):
+                        seen_ctor.add(m.group(1))
+        wrong = sorted(k for k in seen_ctor if k != kind)
+        term = "false" if wrong else "true"
+        v, model, detail = duo.check(["(declare-const x Bool)"], [f"(not {term})"])
+        samples.append(f"{fname}: FrameOrResult constructors reachable: {sorted(seen_ctor)} (must all be `{kind}`): {v}")
+        log(f"[e3] {samples[-1]}")
+        if v == "sat":
+            st, out = native.call("debug", "inspector_balance", log=log)
+            desc = f"{fname} builds a FrameOrResult of kind {wrong}: the inspector pops the wrong input stack for it"
+            failures.append(dict(id=f"framekind-{fname}", reproduced=(st == "panic" or "UNBALANCED" in out), description=desc + f" | native: {st} {out[:300]}"))
+        elif v != "unsat":
+            inconcl.append(f"{fname}: {detail}")
     q, tm = duo.queries, duo.time
     duo.close()
     res = dict(queries=q, solver_s=tm, engine="mir-cfg -> smtlib path search (z3 4.8.12 + cvc5 1.0)", bounds="; ".join(samples),
